@@ -215,7 +215,7 @@ func CustomCase(r *rand.Rand, name string, o CustomOpts) *Case {
 			continue
 		}
 		// positions of the pair inside S / T
-		pos := []string{"D", "L", "M", "P", "N", "LN", "MP", "MK", "MKE", "LL"}
+		pos := []string{"D", "L", "M", "P", "N", "LN", "MP", "MK", "MKE", "LL", "MSK"}
 		r.Shuffle(len(pos), func(a, b int) { pos[a], pos[b] = pos[b], pos[a] })
 		for _, p := range pos[:1+r.Intn(3)] {
 			f := fmt.Sprintf("%s%d", p, i)
@@ -243,6 +243,10 @@ func CustomCase(r *rand.Rand, name string, o CustomOpts) *Case {
 				callables["fn:"+kf] = "conv." + kf
 				sS.Fields = append(sS.Fields, F(f, Map(Named(ks), Named(ha))))
 				tS.Fields = append(tS.Fields, F(f, Map(Named(kt), Named(hb))))
+			case "MSK":
+				// a map with a struct key (converted field by field) and the hooked pair as value
+				sS.Fields = append(sS.Fields, F(f, Map(Struct(F("A", Basic("int")), F("B", Basic("string"))), Named(ha))))
+				tS.Fields = append(tS.Fields, F(f, Map(Struct(F("A", Basic("int")), F("B", Basic("string"))), Named(hb))))
 			case "LL":
 				// nested unnamed lists: one method sets a field, an outer index and an inner index
 				sS.Fields = append(sS.Fields, F(f, Slice(Slice(Named(ha)))))
